@@ -68,7 +68,9 @@ JoinDot(p) == IF Len(p) = 1 THEN p[1] ELSE p[1] \o "." \o JoinDot(Tail(p))
 Vars  == {"", "discrete", "parameter", "constant"}
 IOs   == {"", "input", "output"}
 Types == {"Real", "Integer", "Boolean", "String"}
-Ders  == {"none", "direct", "inexpr", "ofexpr", "nested", "initial"}
+Ders  == {"none", "direct", "inexpr", "ofexpr", "nested", "initial", "aftersub", "initafter"}
+(* aftersub:  der(((2 * g) + v)) = 1   - the argument of der() is a compound expression and v comes AFTER a nested operator
+              node (g is a helper declared next to v, differentiated as well);  initafter: the same in an initial equation *)
 
 (* der() only on Real; String variables only as parameters / constants (a String input / output / algebraic is outside
    what the CasADi back end supports: Model.outputs cannot even name a StringVariable) *)
@@ -81,6 +83,7 @@ CoreKinds == {k \in Kinds :
                  \/ ~k.alias /\
                     \/ k.type = "Real" /\ k.der \in {"none", "direct"} /\ (k.var = "" \/ k.io = "")
                     \/ k.type = "Real" /\ k.der = "inexpr" /\ k.var = "" /\ k.io = "output"
+                    \/ k.type = "Real" /\ k.der = "aftersub" /\ k.var = "" /\ k.io = ""
                     \/ k.type = "String" /\ k.var \in {"parameter", "constant"} /\ k.io = ""
                     \/ k.type = "Integer" /\ k.var = "parameter" /\ k.io = ""
                     \/ k.type = "Boolean" /\ k.var = "" /\ k.io = "input"}
@@ -107,12 +110,14 @@ AliasClasses == LET ts == {pv.vs[i].type : i \in {j \in DOMAIN pv.vs : pv.vs[j].
                 \o (IF "Boolean" \in ts THEN <<AliasCl("TBoolean", "Boolean")>> ELSE <<>>)
 VComps == [i \in DOMAIN pv.vs |-> Cmp(VName(i), TypeName(pv.vs[i]), KPrefixes(pv.vs[i]), KValue(pv.vs[i]))]
 NeedH == \E i \in DOMAIN pv.vs : pv.vs[i].der = "inexpr"
+NeedG == \E i \in DOMAIN pv.vs : pv.vs[i].der \in {"aftersub", "initafter"}
+GComp == IF NeedG THEN <<Cmp("g", "Real", <<>>, <<>>)>> ELSE <<>>
 HComp == IF NeedH THEN <<Cmp("h", "Real", <<>>, <<>>)>> ELSE <<>>
 
 (* where the der() of variable i is written: in the class that declares it ("own") or, for a
    variable of the sub-component, in the top model through the dotted name ("top") *)
 Where(i) == IF pv.level = "top" THEN "own"
-            ELSE IF pv.vs[i].der \in {"nested", "ofexpr"} THEN "own" ELSE "top"
+            ELSE IF pv.vs[i].der \in {"nested", "ofexpr", "aftersub", "initafter"} THEN "own" ELSE "top"
 VRef(i, w) == IF pv.level = "nested" /\ w = "top" THEN Ref(<<"s", VName(i)>>) ELSE Ref(<<VName(i)>>)
 DerEqs(w) ==   \* equations written in class w ("own" = declaring class, "top")
     LET one(i) == LET k == pv.vs[i] IN
@@ -120,15 +125,20 @@ DerEqs(w) ==   \* equations written in class w ("own" = declaring class, "top")
             ELSE CASE k.der \in {"direct", "nested"} -> <<Eq(Der(VRef(i, w)), Lit(1))>>
                    [] k.der = "inexpr" -> <<Eq(Ref(<<"h">>), Bin("*", Lit(2), Der(VRef(i, w))))>>
                    [] k.der = "ofexpr" -> <<Eq(Der(Bin("*", VRef(i, w), Lit(2))), Lit(1))>>
+                   [] k.der = "aftersub" -> <<Eq(Der(Bin("+", Bin("*", Lit(2), Ref(<<"g">>)), VRef(i, w))), Lit(1))>>
                    [] OTHER -> <<>>
     IN FlattenSeq([i \in DOMAIN pv.vs |-> one(i)])
 DerIeqs(w) ==
-    FlattenSeq([i \in DOMAIN pv.vs |-> IF pv.vs[i].der = "initial" /\ Where(i) = w THEN <<Eq(Der(VRef(i, w)), Lit(0))>> ELSE <<>>])
+    FlattenSeq([i \in DOMAIN pv.vs |->
+        IF pv.vs[i].der = "initial" /\ Where(i) = w THEN <<Eq(Der(VRef(i, w)), Lit(0))>>
+        ELSE IF pv.vs[i].der = "initafter" /\ Where(i) = w
+             THEN <<Eq(Der(Bin("+", Bin("*", Lit(2), Ref(<<"g">>)), VRef(i, w))), Lit(0))>>
+        ELSE <<>>])
 
 Lib == AliasClasses \o
        IF pv.level = "top"
-       THEN <<Cl("Top", VComps \o HComp, DerEqs("own"), DerIeqs("own"))>>
-       ELSE <<Cl("Sub", VComps, DerEqs("own"), DerIeqs("own")),
+       THEN <<Cl("Top", VComps \o HComp \o GComp, DerEqs("own"), DerIeqs("own"))>>
+       ELSE <<Cl("Sub", VComps \o GComp, DerEqs("own"), DerIeqs("own")),
               Cl("Top", <<Cmp("s", "Sub", <<>>, <<>>)>> \o HComp, DerEqs("top"), DerIeqs("top"))>>
 
 --------------------------------------------------------------------------------
@@ -144,7 +154,9 @@ ParsedSyms ==
     LET vsyms == [i \in DOMAIN pv.vs |-> [name |-> <<VName(i)>>, prefixes |-> ParsedPrefixes(pv.vs[i]), type |-> pv.vs[i].type,
                                           inst |-> IF pv.level = "top" THEN <<>> ELSE <<"s">>, state |-> FALSE]]
         hsym  == IF NeedH THEN <<[name |-> <<"h">>, prefixes |-> <<>>, type |-> "Real", inst |-> <<>>, state |-> FALSE]>> ELSE <<>>
-        all   == vsyms \o hsym
+        inst0 == IF pv.level = "top" THEN <<>> ELSE <<"s">>
+        gsym  == IF NeedG THEN <<[name |-> <<"g">>, prefixes |-> <<>>, type |-> "Real", inst |-> inst0, state |-> FALSE]>> ELSE <<>>
+        all   == IF pv.level = "top" THEN vsyms \o hsym \o gsym ELSE vsyms \o gsym \o hsym
     IN [i \in DOMAIN all |-> [name |-> all[i].name, prefixes |-> all[i].prefixes, type |-> all[i].type, inst |-> all[i].inst,
                               state |-> FALSE, order |-> i]]
 
@@ -195,7 +207,7 @@ Shard   == IF "SHARD" \in DOMAIN IOEnv THEN atoi(IOEnv.SHARD) ELSE 0
 Idx(w) == CASE w = "" -> 0 [] w = "discrete" -> 1 [] w = "parameter" -> 2 [] w = "constant" -> 3 [] w = "input" -> 1
             [] w = "output" -> 2 [] w = "Real" -> 0 [] w = "Integer" -> 1 [] w = "Boolean" -> 2 [] w = "String" -> 3
             [] w = "none" -> 0 [] w = "direct" -> 1 [] w = "inexpr" -> 2 [] w = "ofexpr" -> 3 [] w = "nested" -> 4
-            [] w = "initial" -> 5 [] w = "top" -> 0 [] OTHER -> 1
+            [] w = "initial" -> 5 [] w = "aftersub" -> 6 [] w = "initafter" -> 7 [] w = "top" -> 0 [] OTHER -> 1
 KHash(k) == Idx(k.var) + 4 * Idx(k.io) + 12 * Idx(k.type) + 48 * Idx(k.der) + (IF k.alias THEN 5 ELSE 0)
 Hash(v) == Idx(v.level) + 3 * KHash(v.vs[1]) + (IF Len(v.vs) > 1 THEN 7 * KHash(v.vs[2]) ELSE 0)
 
@@ -265,7 +277,8 @@ Classify ==
                                          \cup {IF Len(KPrefixes(pv.vs[i])) > 1 THEN "two-keyword-prefix" ELSE "plain-prefix" : i \in DOMAIN pv.vs},
                                 ctags |-> {"two-keyword-prefix" : i \in {j \in DOMAIN pv.vs : Len(KPrefixes(pv.vs[j])) > 1}},
                                 expect |-> Generate(syms),
-                                groups |-> <<[i \in DOMAIN pv.vs |-> JoinDot(VPath(i))]>> \o (IF NeedH THEN << <<"h">> >> ELSE <<>>)])>>)
+                                groups |-> <<[i \in DOMAIN pv.vs |-> JoinDot(VPath(i))]>> \o (IF NeedH THEN << <<"h">> >> ELSE <<>>)
+                                          \o (IF NeedG THEN << <<JoinDot((IF pv.level = "top" THEN <<>> ELSE <<"s">>) \o <<"g">>)>> >> ELSE <<>>)])>>)
     /\ UNCHANGED <<pv, syms, feqs, shard>>
 
 Next == Parse \/ Flatten \/ AnnotateStates \/ Classify
